@@ -609,6 +609,7 @@ pub fn run_level_b(
     let mut stdout_s = String::new();
     let mut stderr_s = String::new();
     let mut exit_code: Option<i32> = None;
+    let mut stdin_chunks = 0usize;
     match cmd.spawn() {
         Err(e) => {
             obs = Obs::Crashed(format!("HARNESS: cannot spawn blockwatch: {e}"));
@@ -617,8 +618,34 @@ pub fn run_level_b(
         Ok(mut child) => {
             if let Some(mut si) = child.stdin.take() {
                 let text = stdin_text.clone().unwrap_or_default();
+                // a slow peer on the pipe: in a quarter of the runs the diff trickles in, in a few
+                // chunks cut at arbitrary bytes (inside lines and UTF-8 sequences) with short pauses
+                let mut srng = crate::rng::Rng::new(crate::rng::mix(plan.diff_seed, "stdin-chunks"));
+                let mut cuts: Vec<usize> = Vec::new();
+                if text.len() > 1 && srng.chance(1, 4) {
+                    let n = 1 + srng.below(6);
+                    for _ in 0..n {
+                        cuts.push(1 + srng.below(text.len() - 1));
+                    }
+                    if srng.chance(1, 3) {
+                        cuts.push(1); // a first read of a single byte
+                    }
+                    cuts.sort();
+                    cuts.dedup();
+                }
+                stdin_chunks = cuts.len() + 1;
+                let pauses: Vec<u64> = cuts.iter().map(|_| 200 + srng.below(1800) as u64).collect();
                 std::thread::spawn(move || {
-                    let _ = si.write_all(text.as_bytes());
+                    let b = text.as_bytes();
+                    let mut at = 0;
+                    for (c, us) in cuts.iter().zip(&pauses) {
+                        if si.write_all(&b[at..*c]).is_err() || si.flush().is_err() {
+                            return;
+                        }
+                        at = *c;
+                        std::thread::sleep(Duration::from_micros(*us));
+                    }
+                    let _ = si.write_all(&b[at..]);
                 });
             }
             let mut so = child.stdout.take().unwrap();
@@ -736,12 +763,15 @@ pub fn run_level_b(
         if decoy_git_file {
             *m.entry("runs_with_git_file_in_start_dir".to_string()).or_default() += 1;
         }
+        if stdin_chunks > 1 {
+            *m.entry("runs_with_diff_trickling_in_on_stdin".to_string()).or_default() += 1;
+        }
     }
     let mut v = serde_json::to_value(&rr).unwrap_or_default();
     v["level_b"] = serde_json::json!({
         "exit_code": exit_code, "stdout": tail(&stdout_s), "stderr": tail(&stderr_s),
         "cwd": cwd_rel, "cores": cores, "workers": plan.workers.max(1), "git_diff": git_diff.is_some(),
-        "stdin": stdin_text, "harness_notes": harness_notes.clone(), "foreign_requests_ignored": foreign_requests, "symlinked_files": symlinks, "ignore_rules_in_git_info_exclude": git_exclude_used, "decoy_git_file_in_start_dir": decoy_git_file,
+        "stdin": stdin_text, "stdin_chunks": stdin_chunks, "harness_notes": harness_notes.clone(), "foreign_requests_ignored": foreign_requests, "symlinked_files": symlinks, "ignore_rules_in_git_info_exclude": git_exclude_used, "decoy_git_file_in_start_dir": decoy_git_file,
     });
     let _ = std::fs::remove_dir_all(&base);
     ChildReport {
